@@ -268,3 +268,47 @@ def _combinations(ex, args, kwargs, node):
   it = loopmod.VIter(n, elem)
   it.comb = (sset, rt)
   return it
+
+
+# ---------------------------------------------------------------------------
+# copy
+
+
+def _deep(ctx, v, memo):
+  from mmverif.engine.symexec import ObjRec
+  if isinstance(v, VObj):
+    if v.oid in memo:
+      return memo[v.oid]
+    new = ctx.new_object(v.cls, v.cls.lower() + '_copy')
+    memo[v.oid] = new
+    for f, fv in list(ctx.objects[v.oid].fields.items()):
+      ctx.objects[new.oid].fields[f] = _deep(ctx, fv, memo)
+    return new
+  if isinstance(v, VOpt):
+    return VOpt(v.none, _deep(ctx, v.val, memo))
+  if isinstance(v, VTuple):
+    return VTuple([_deep(ctx, i, memo) for i in v.items], v.names, v.tname)
+  if hasattr(v, 'clone'):
+    return v.clone()
+  return v          # immutable values (numbers, sets, arrays are values here)
+
+
+@lib('copy.deepcopy',
+     'deepcopy returns a fresh object graph, field-wise equal to the original '
+     'and disjoint from it (NumPy arrays are values in this model)')
+def _deepcopy(ex, args, kwargs, node):
+  return _deep(ex.ctx, args[0], {})
+
+
+@lib('copy.copy', 'copy.copy of an object: a new object with the same fields')
+def _copy(ex, args, kwargs, node):
+  v = args[0]
+  ctx = ex.ctx
+  if isinstance(v, VObj):
+    new = ctx.new_object(v.cls, v.cls.lower() + '_copy')
+    for f, fv in ctx.objects[v.oid].fields.items():
+      ctx.objects[new.oid].fields[f] = fv
+    return new
+  if hasattr(v, 'clone'):
+    return v.clone()
+  return v
